@@ -38,6 +38,8 @@
      "NoCleanupOnEarlyExit"    temp dir not tied to the generator's frame (mkdtemp without context manager)
      "ExtractToCwd"            tar members extracted to the working directory instead of read in memory
      "YieldHidden"             hidden-member rule dropped
+     "BackslashAfterCheck"     _safe_join turns backslashes into separators AFTER its containment check: a name
+                               like docs\..\..\x passes as one file name and is then written outside the directory
      "ReadByName"              ZIP / TAR member bytes fetched by NAME (zf.read(name), tf.extractfile(name)): with
                                several entries of one name every one of them comes out with the LAST entry's bytes
      "FollowHardlinks"         tar hard links pass the regular-file test: tarfile.extractfile resolves the
@@ -56,7 +58,7 @@ EXTENDS Naturals, Sequences, FiniteSets, TLC
 CONSTANTS Fmts, MemberTypes, MaxMembers, MaxK, Deviations
 
 DeviationNames == {"RereadUnchecked", "MemberErrorKillsArchive", "FolderErrorKillsArchive",
-                   "NoCleanupOnEarlyExit", "ExtractToCwd", "YieldHidden", "FollowHardlinks", "ReadByName"}
+                   "NoCleanupOnEarlyExit", "ExtractToCwd", "YieldHidden", "FollowHardlinks", "ReadByName", "BackslashAfterCheck"}
 ASSUME Deviations \subseteq DeviationNames
 Dev(d) == d \in Deviations
 
@@ -195,7 +197,9 @@ GExtract ==
             ELSE IF SafeJoin(m.nc) = "Reject" THEN Unwind("failed", "hostileName") /\ UNCHANGED idx
             ELSE IF WriteFails(m.nc)
                  THEN UnwindWith("failed", "hostileName", {<<"write", SafeJoin(m.nc)>>}) /\ UNCHANGED idx
-                 ELSE /\ fs' = fs \cup {<<"mkdir", "InsideTmp">>, <<"write", "InsideTmp">>}
+                 ELSE /\ fs' = fs \cup {<<"mkdir", "InsideTmp">>,
+                                         <<"write", IF Dev("BackslashAfterCheck") /\ m.nc = "backslash"
+                                                    THEN "Outside" ELSE "InsideTmp">>}
                       /\ idx' = idx + 1 /\ UNCHANGED <<gen, tmp, pc, cause>>
     /\ UNCHANGED <<fmt, ms, nd, hist, results, got>>
 
